@@ -600,7 +600,7 @@ func main() {
 
 			// ------------------------------------------------------------ age-keygen
 			c.Part("age-keygen")
-			c.Bound("age-keygen to stdout / -o new file / -o existing file / -y from file and stdin; -o limited to every N in 0..size bytes; stdout = /dev/full; -o in a nonexistent directory; created file mode")
+			c.Bound("age-keygen to stdout / -o new file / -o existing file (7 spellings incl. symbolic links, with and without -y) / -y from file and stdin; -o limited to every N in 0..size bytes; stdout = /dev/full; -o in a nonexistent directory; created file mode")
 			checkKeyfile := func(b []byte, pub string) string {
 				lines := strings.Split(strings.TrimSuffix(string(b), "\n"), "\n")
 				if len(lines) != 3 || !strings.HasPrefix(lines[0], "# created: ") || !strings.HasPrefix(lines[1], "# public key: age1") {
@@ -641,6 +641,39 @@ func main() {
 			c.Eval(1)
 			if r.Exit == 0 || !bytes.Equal(kb, kb2) {
 				c.Fail("keygen-overwrites", "kg.exists", "age-keygen -o on an existing file must fail and leave it untouched", nil)
+			}
+			// the existing file named through other spellings and through symbolic links (also chained, also with -y)
+			{
+				os.MkdirAll(filepath.Join(work, "d"), 0o755)
+				os.Remove(filepath.Join(work, "link1"))
+				os.Remove(filepath.Join(work, "link2"))
+				os.Remove(filepath.Join(work, "d", "rel"))
+				os.Symlink("key.txt", filepath.Join(work, "link1"))
+				os.Symlink(filepath.Join(work, "link1"), filepath.Join(work, "link2"))
+				os.Symlink("../key.txt", filepath.Join(work, "d", "rel"))
+				for _, sp := range []string{"./key.txt", "d/../key.txt", filepath.Join(work, "key.txt"), "link1", "link2", "d/rel", "./link1"} {
+					for _, conv := range []bool{false, true} {
+						id := fmt.Sprintf("kg.exists.%s.y%v", sp, conv)
+						if c.Replaying() && !c.Want(id) {
+							continue
+						}
+						args := []string{"-o", sp}
+						if conv {
+							args = []string{"-y", "-o", sp, "key.txt"}
+						}
+						r := kg(args...).Run()
+						kb3, _ := os.ReadFile(kout)
+						c.Eval(1)
+						c.DistinctOnce(ev.HashStr(id))
+						if r.Exit == 0 || !bytes.Equal(kb, kb3) {
+							c.Fail("keygen-overwrites", id, "age-keygen -o naming an existing file (through another spelling or a symbolic link) must fail and leave it untouched", map[string]interface{}{"args": args, "exit": r.Exit, "stderr": ev.Clip(string(r.Stderr), 200), "file_changed": !bytes.Equal(kb, kb3)})
+							os.WriteFile(kout, kb, 0o600)
+						}
+					}
+				}
+				for _, l := range []string{"link1", "link2", filepath.Join("d", "rel")} {
+					os.Remove(filepath.Join(work, l))
+				}
 			}
 			for n := 0; n <= S; n++ {
 				id := fmt.Sprintf("kg.fsize%d", n)
